@@ -14,7 +14,8 @@ Definition c_keq (a b : ckey) : bool := c_class a =? c_class b.
 
 Inductive cop :=
 | CCreate (kd : kind) (x : ckey) | CGet (kd : kind) (x : ckey) | CDelete (kd : kind) (x : ckey)
-| CRetain (kd : kind) (keep : list N) | CClear | CVisit (kd : kind) | CHandles (kd : kind).
+| CRetain (kd : kind) (keep : list N) | CClear | CVisit (kd : kind) | CHandles (kd : kind)
+| CCreateP (kd : kind) (x : ckey).      (* get_or_create whose closure panics (caught by the driver) *)
 
 Definition to_op (o : cop) : op (key := ckey) :=
   match o with
@@ -25,12 +26,13 @@ Definition to_op (o : cop) : op (key := ckey) :=
   | CClear => OClear
   | CVisit kd => OVisit kd
   | CHandles kd => OHandles kd
+  | CCreateP kd x => OGetOrCreateP kd x
   end.
 
 (* case: k (2^k shards), per-thread programs, schedule *)
 Definition case := (N * list (list cop) * list N)%type.
 
-Inductive cres := CS (s : N) | CO (o : option N) | CB (b : bool) | CU | CL (l : list (N * N)).
+Inductive cres := CS (s : N) | CO (o : option N) | CB (b : bool) | CU | CL (l : list (N * N)) | CQ (s : N).   (* CQ: the closure ran on s and panicked *)
 
 (* observable: step trace (thread, site); per-thread results (oldest first); everybody finished;
    storage constructions in order (kind code, class of the key handed to Storage, id); final listing
@@ -42,10 +44,10 @@ Definition kind_code (kd : kind) : N := match kd with KCounter => 0 | KGauge => 
 Definition listing (l : list (@entry ckey)) : list (N * N) := map (fun e => (c_class (fst e), snd e)) l.
 Definition to_cres (x : res (key := ckey)) : cres :=
   match x with
-  | RSid s => CS s | ROpt o => CO o | RBool b => CB b | RUnit => CU | RList l => CL (listing l)
+  | RSid s => CS s | ROpt o => CO o | RBool b => CB b | RUnit => CU | RList l => CL (listing l) | RPanicked s => CQ s
   end.
 Definition key_of (o : cop) : option ckey :=
-  match o with CCreate _ x | CGet _ x | CDelete _ x => Some x | _ => None end.
+  match o with CCreate _ x | CGet _ x | CDelete _ x | CCreateP _ x => Some x | _ => None end.
 
 Definition rr_fuel : nat := N.to_nat 6000.
 
@@ -98,6 +100,7 @@ Definition cres_eqb (a b : cres) : bool :=
   | CB x, CB y => Bool.eqb x y
   | CU, CU => true
   | CL l, CL l' => perm_eqb l l'
+  | CQ s, CQ s' => s =? s'
   | _, _ => false
   end.
 
